@@ -965,6 +965,12 @@ pub fn check_cmd(id: &str, tier: &str, seed: u64) -> i32 {
             exit = 1;
         }
     }
+    // every listed finding of this property is named, also when this run's sample did not reach it
+    for k in known.iter().filter(|k| k.property == def.id) {
+        if !known_lines.iter().any(|l| l.ends_with(&format!("[class {}]", k.class))) {
+            println!("KNOWN-FINDING: property={} {} [class {}] (listed; not reached by this run's sample)", def.id, k.what, k.class);
+        }
+    }
     known_lines.sort();
     for l in &known_lines {
         println!("{}", l);
